@@ -37,25 +37,30 @@ fn unstructured<C: CipherProvider + ?Sized>(cipher: &C) {
     kani::cover!(code == REJ && version == 5 && len == 48 && buf[12] > 3, "v5 header: bad timescale");
 }
 
+// Unwind bounds of the unstructured harnesses: 52 bytes hold at most one 4-byte NTPv5 field (field
+// loop: 2 head visits; NTPv4 parses no field at all below 73 bytes); the 4 draws of the oracle tape
+// need 5. Every further iteration of the field loop is explored on infeasible paths at ~1 min each.
 pharness! {
-    #[kani::unwind(8)]
+    #[kani::unwind(3)]
     fn c23_u_nocipher() {
         unstructured(&NoCipher);
     }
 }
 pharness! {
-    #[kani::unwind(8)]
+    #[kani::unwind(5)]
     fn c23_u_client() {
         symbolic_oracle();
         unstructured(&OracleCipher);
     }
 }
 pharness! {
-    #[kani::unwind(8)]
+    #[kani::unwind(5)]
     #[kani::stub(<ntp_proto::verif::packet::crypto::AesSivCmac512 as ntp_proto::Cipher>::decrypt, crate::common::aes512_decrypt_stub)]
     #[kani::stub(<ntp_proto::verif::packet::crypto::AesSivCmac256 as ntp_proto::Cipher>::decrypt, crate::common::aes256_decrypt_stub)]
     #[kani::stub(zeroize::barrier::optimization_barrier, crate::common::zeroize_barrier_stub)]
     #[kani::stub(zeroize::volatile_set, crate::common::zeroize_volatile_set_stub)]
+    #[kani::stub(ntp_proto::verif::packet::crypto::AesSivCmac256::try_from, crate::common::aes256_try_from_stub)]
+    #[kani::stub(ntp_proto::verif::packet::crypto::AesSivCmac512::try_from, crate::common::aes512_try_from_stub)]
     fn c23_u_keyset() {
         symbolic_oracle();
         symbolic_cookie_plaintext();
@@ -151,6 +156,8 @@ macro_rules! with_keyset {
             #[kani::stub(<ntp_proto::verif::packet::crypto::AesSivCmac256 as ntp_proto::Cipher>::decrypt, crate::common::aes256_decrypt_stub)]
             #[kani::stub(zeroize::barrier::optimization_barrier, crate::common::zeroize_barrier_stub)]
             #[kani::stub(zeroize::volatile_set, crate::common::zeroize_volatile_set_stub)]
+            #[kani::stub(ntp_proto::verif::packet::crypto::AesSivCmac256::try_from, crate::common::aes256_try_from_stub)]
+            #[kani::stub(ntp_proto::verif::packet::crypto::AesSivCmac512::try_from, crate::common::aes512_try_from_stub)]
             fn $n() {
                 symbolic_oracle();
                 symbolic_cookie_plaintext();
@@ -165,7 +172,7 @@ macro_rules! with_keyset {
 
 // ================================================================== NTPv4, no keys
 // RFC 7822: fields are parsed only while more than 24 bytes remain; the rest (4..=24 bytes) is a MAC.
-with_nocipher!(c23_t_v4_ok_n, 30, |c| {
+with_nocipher!(c23_t_v4_ok_n, 5, |c| {
     let a = one::<80, 1, _>(V4C, None, [fld(T_UID, 28)], 0, 0, None, None, c);
     let d = one::<104, 1, _>(V4C, None, [fld(T_COOKIE, 28)], 24, 0, None, None, c);
     let e = one::<80, 1, _>(V4S, None, [fld(T_OTHER, 4)], 24, 0, None, None, c);
@@ -176,48 +183,49 @@ with_nocipher!(c23_t_v4_ok_n, 30, |c| {
     kani::cover!(a == ACC, "reached");
 });
 /// quick-tier representatives
-with_nocipher!(c23_t_v4_q_n, 30, |c| {
+with_nocipher!(c23_t_v4_q_n, 5, |c| {
     let a = one::<80, 1, _>(V4C, None, [fld(T_UID, 28)], 0, 0, None, None, c);
     let d = one::<104, 1, _>(V4S, None, [fld(T_COOKIE, 28)], 24, 0, None, None, c);
     assert!(a == ACC && d == ACC, "well-formed v4 packets are accepted");
     kani::cover!(a == ACC, "reached");
 });
-with_nocipher!(c23_t_v5_q_n, 30, |c| {
+with_nocipher!(c23_t_v5_q_n, 5, |c| {
     let c5 = one::<100, 2, _>(V5Q, Some((1, 1)), [DRAFT_F, fld(T_COOKIE, 5)], 0, 0, None, None, c);
     let c17 = one::<100, 2, _>(V5R, Some((0, 1)), [fld(T_OTHER, 17), DRAFT_F], 0, 0, None, None, c);
     assert!(c5 == ACC && c17 == ACC, "well-formed v5 packets with odd field lengths are accepted");
     kani::cover!(c17 == ACC, "reached");
 });
-with_nocipher!(c23_t_v4_multi_n, 30, |c| {
+with_nocipher!(c23_t_v4_multi_n, 5, |c| {
     let a = one::<96, 2, _>(V4C, None, [fld(T_UID, 16), fld(T_COOKIE, 28)], 0, 0, None, None, c);
     let b = one::<116, 2, _>(V4S, None, [fld(T_OTHER, 16), fld(T_UID, 28)], 20, 0, None, None, c);
     let d = one::<112, 3, _>(V4C, None, [fld(T_UID, 16), fld(T_COOKIE, 16), fld(T_OTHER, 28)], 0, 0, None, None, c);
     assert!(a == ACC && b == ACC && d == ACC, "two/three well-formed fields (+ MAC) are accepted");
     kani::cover!(d == ACC, "reached");
 });
-with_nocipher!(c23_t_v4_placeholder_n, 30, |c| {
-    let a = one::<80, 1, _>(V4C, None, [fld(T_PLACEHOLDER, 28)], 0, 0, None, None, c);
+with_nocipher!(c23_t_v4_placeholder_n, 7, |c| {
+    // 4-byte body (the all-zero check is a loop over the body; the global bound is kept small)
+    let a = one::<80, 1, _>(V4C, None, [fld(T_PLACEHOLDER, 8)], 17, 0, None, None, c);
     kani::cover!(a == ACC, "all-zero placeholder accepted");
     kani::cover!(a == REJ, "non-zero placeholder refused");
 });
-with_nocipher!(c23_t_v4_trunc_n, 30, |c| {
+with_nocipher!(c23_t_v4_trunc_n, 5, |c| {
     let b = one::<80, 1, _>(V4C, None, [fld(T_UID, 28)], 0, 1, None, None, c);
     assert!(b == REJ, "a field one byte longer than the packet is refused");
     kani::cover!(b == REJ, "reached");
 });
-with_nocipher!(c23_t_v4_long_n, 30, |c| {
+with_nocipher!(c23_t_v4_long_n, 5, |c| {
     let x = one::<88, 1, _>(V4S, None, [fld(T_COOKIE, 32)], 0, 4, None, None, c);
     assert!(x == REJ, "a field four bytes longer than the packet is refused");
     kani::cover!(x == REJ, "reached");
 });
-with_nocipher!(c23_t_v4_multi_trunc_n, 30, |c| {
+with_nocipher!(c23_t_v4_multi_trunc_n, 5, |c| {
     let x = one::<96, 2, _>(V4C, None, [fld(T_UID, 16), fld(T_UID, 28)], 0, 2, None, None, c);
     assert!(x == REJ, "truncated second field refused");
     kani::cover!(x == REJ, "reached");
 });
 macro_rules! v4_badlen {
     ($n:ident, $l:expr) => {
-        with_nocipher!($n, 30, |c| {
+        with_nocipher!($n, 5, |c| {
             let x = one::<80, 1, _>(V4C, None, [fld(T_UID, 28)], 0, 0, Some((0, $l)), None, c);
             assert!(x == REJ, "impossible length word refused");
             kani::cover!(x == REJ, "reached");
@@ -230,7 +238,7 @@ v4_badlen!(c23_t_v4_len30_n, 30);
 v4_badlen!(c23_t_v4_lenmax_n, 0xFFFF);
 
 // ================================================================== NTPv5, no keys
-with_nocipher!(c23_t_v5_ok_n, 30, |c| {
+with_nocipher!(c23_t_v5_ok_n, 5, |c| {
     let c4 = one::<100, 2, _>(V5Q, Some((0, 0)), [DRAFT_F, fld(T_UID, 4)], 0, 0, None, None, c);
     let c5 = one::<100, 2, _>(V5Q, Some((1, 1)), [DRAFT_F, fld(T_COOKIE, 5)], 0, 0, None, None, c);
     let c6 = one::<100, 2, _>(V5Q, Some((2, 2)), [DRAFT_F, fld(T_REFID_REQ, 6)], 0, 0, None, None, c);
@@ -240,43 +248,43 @@ with_nocipher!(c23_t_v5_ok_n, 30, |c| {
     assert!(c4 == ACC && c5 == ACC && c6 == ACC && c7 == ACC && c8 == ACC && c17 == ACC, "well-formed v5 packets (odd field lengths, padded) are accepted");
     kani::cover!(c17 == ACC, "reached");
 });
-with_nocipher!(c23_t_v5_placeholder_n, 30, |c| {
-    let a = one::<100, 2, _>(V5Q, Some((0, 1)), [DRAFT_F, fld(T_PLACEHOLDER, 17)], 0, 0, None, None, c);
+with_nocipher!(c23_t_v5_placeholder_n, 7, |c| {
+    let a = one::<100, 2, _>(V5Q, Some((0, 1)), [DRAFT_F, fld(T_PLACEHOLDER, 7)], 0, 0, None, None, c);
     kani::cover!(a == ACC, "all-zero placeholder accepted");
     kani::cover!(a == REJ, "non-zero placeholder refused");
 });
-with_nocipher!(c23_t_v5_nopad5_n, 30, |c| {
+with_nocipher!(c23_t_v5_nopad5_n, 5, |c| {
     let x = one::<100, 2, _>(V5Q, Some((0, 1)), [DRAFT_F, fld(T_UID, 5)], 0, 1, None, None, c);
     assert!(x == REJ, "v5 field whose padding is missing is refused");
     kani::cover!(x == REJ, "reached");
 });
-with_nocipher!(c23_t_v5_nopad17_n, 30, |c| {
+with_nocipher!(c23_t_v5_nopad17_n, 5, |c| {
     let x = one::<100, 2, _>(V5Q, Some((0, 1)), [DRAFT_F, fld(T_OTHER, 17)], 0, 3, None, None, c);
     assert!(x == REJ, "v5 field whose padding is missing is refused");
     kani::cover!(x == REJ, "reached");
 });
-with_nocipher!(c23_t_v5_len3_n, 30, |c| {
+with_nocipher!(c23_t_v5_len3_n, 5, |c| {
     let x = one::<100, 2, _>(V5Q, Some((0, 1)), [DRAFT_F, fld(T_UID, 8)], 0, 0, Some((1, 3)), None, c);
     assert!(x == REJ, "length below the field header refused");
     kani::cover!(x == REJ, "reached");
 });
-with_nocipher!(c23_t_v5_lenmax_n, 30, |c| {
+with_nocipher!(c23_t_v5_lenmax_n, 5, |c| {
     let x = one::<100, 2, _>(V5Q, Some((0, 1)), [DRAFT_F, fld(T_UID, 8)], 0, 0, Some((1, 0xFFFF)), None, c);
     assert!(x == REJ, "length beyond the packet refused");
     kani::cover!(x == REJ, "reached");
 });
-with_nocipher!(c23_t_v5_refid_short_n, 30, |c| {
+with_nocipher!(c23_t_v5_refid_short_n, 5, |c| {
     let x = one::<100, 2, _>(V5Q, Some((0, 1)), [DRAFT_F, fld(T_REFID_REQ, 5)], 0, 0, None, None, c);
     assert!(x == REJ, "reference id request without room for its offset refused");
     kani::cover!(x == REJ, "reached");
 });
-with_nocipher!(c23_t_v5_nodraft_n, 30, |c| {
+with_nocipher!(c23_t_v5_nodraft_n, 5, |c| {
     let x = one::<76, 2, _>(V5Q, Some((0, 1)), [fld(T_UID, 13), fld(T_OTHER, 7)], 0, 0, None, None, c);
     assert!(x == REJ, "v5 packet without draft identification refused");
     kani::cover!(x == REJ, "reached");
 });
 /// draft identification field with symbolic content: accepted iff it is the expected string
-with_nocipher!(c23_t_v5_draft_sym_n, 30, |c| {
+with_nocipher!(c23_t_v5_draft_sym_n, 5, |c| {
     let img: Img<80, 1> = layout(V5Q, Some((0, 1)), [fld(T_DRAFT, 27)], 0, 0);
     let code = run(&img, c);
     let exact = {
@@ -290,12 +298,12 @@ with_nocipher!(c23_t_v5_draft_sym_n, 30, |c| {
     kani::cover!(code == ACC, "expected draft string found by the solver");
     kani::cover!(code == REJ && img.buf[52] >= 0x80, "non-ASCII draft string");
 });
-with_nocipher!(c23_t_v5_draft_second_n, 30, |c| {
+with_nocipher!(c23_t_v5_draft_second_n, 5, |c| {
     let e = one::<92, 2, _>(V5Q, Some((0, 1)), [DRAFT_F, fld(T_DRAFT, 10)], 0, 0, None, None, c);
     kani::cover!(e == ACC, "second draft field with other ASCII content tolerated");
     kani::cover!(e == REJ, "second draft field with non-ASCII content refused");
 });
-with_nocipher!(c23_t_v5_draft_first_wrong_n, 30, |c| {
+with_nocipher!(c23_t_v5_draft_first_wrong_n, 5, |c| {
     let g = one::<92, 2, _>(V5Q, Some((0, 1)), [fld(T_DRAFT, 10), DRAFT_F], 0, 0, None, None, c);
     assert!(g == REJ, "the first draft identification field decides");
     kani::cover!(g == REJ, "reached");
@@ -314,22 +322,22 @@ macro_rules! nts4 { ($c:expr, $nl:expr, $cl:expr, $t:expr) => { one::<136, 2, _>
 macro_rules! nts5 { ($c:expr, $nl:expr, $cl:expr) => { one::<132, 2, _>(V5Q, Some((0, 1)), NTS5, 0, 0, None, Some((1, $nl, $cl)), $c) } }
 macro_rules! nts5c { ($c:expr, $nl:expr, $cl:expr) => { one::<160, 3, _>(V5Q, Some((0, 1)), NTS5C, 0, 0, None, Some((2, $nl, $cl)), $c) } }
 
-with_nocipher!(c23_t_nts_v4_n, 30, |c| {
+with_nocipher!(c23_t_nts_v4_n, 5, |c| {
     let ok = nts4!(c, 16, 28, 0);
     assert!(ok == DEC, "well-formed NTS field without keys: decrypt error, never accepted");
     kani::cover!(ok == DEC, "reached");
 });
-with_nocipher!(c23_t_nts_v4_long_n, 30, |c| {
+with_nocipher!(c23_t_nts_v4_long_n, 5, |c| {
     let long = nts4!(c, 16, 29, 0);
     assert!(long == REJ, "ciphertext length pointing outside the field refused");
     kani::cover!(long == REJ, "reached");
 });
-with_nocipher!(c23_t_nts_v4_short_n, 30, |c| {
+with_nocipher!(c23_t_nts_v4_short_n, 5, |c| {
     let e = one::<80, 1, _>(V4S, None, [fld(T_NTS, 4)], 24, 0, None, None, c);
     assert!(e == REJ, "NTS field without its length words refused");
     kani::cover!(e == REJ, "reached");
 });
-with_nocipher!(c23_t_nts_v5_n, 30, |c| {
+with_nocipher!(c23_t_nts_v5_n, 5, |c| {
     let ok = nts5!(c, 16, 26);
     assert!(ok == DEC, "well-formed NTS field without keys: decrypt error, never accepted");
     kani::cover!(ok == DEC, "reached");
@@ -384,24 +392,24 @@ with_client!(c23_t_nts_v5_long_c, 5, |c| {
 });
 
 // server cookie keys (real KeySet::get / decode_cookie; AES-SIV stubbed by the oracle model)
-with_keyset!(c23_t_nts_v4_k, 70, |c| {
+with_keyset!(c23_t_nts_v4_k, 5, |c| {
     // empty plaintext (ciphertext = tag): the key-size loops of decode_cookie need a large global
     // unwind bound, which the plaintext field parser would spend on infeasible iterations
     let ok = nts4!(c, 16, 16, 0);
     kani::cover!(ok == ACC, "cookie decoded (real decode_cookie), field decrypted");
     kani::cover!(ok == DEC, "cookie or field refused");
 });
-with_keyset!(c23_t_nts_v4_nocookie_k, 70, |c| {
+with_keyset!(c23_t_nts_v4_nocookie_k, 5, |c| {
     let x = one::<104, 1, _>(V4C, None, [fld(T_NTS, 52)], 0, 0, None, Some((0, 16, 16)), c);
     assert!(x == DEC, "NTS field without cookie: no key, decrypt error");
     kani::cover!(x == DEC, "reached");
 });
-with_keyset!(c23_t_nts_v4_twocookies_k, 70, |c| {
+with_keyset!(c23_t_nts_v4_twocookies_k, 5, |c| {
     let x = one::<160, 3, _>(V4C, None, [fld(T_COOKIE, 28), fld(T_COOKIE, 28), fld(T_NTS, 52)], 0, 0, None, Some((2, 16, 16)), c);
     assert!(x == DEC, "two cookies: no key, decrypt error");
     kani::cover!(x == DEC, "reached");
 });
-with_keyset!(c23_t_nts_v5_k, 70, |c| {
+with_keyset!(c23_t_nts_v5_k, 5, |c| {
     let ok = nts5c!(c, 16, 16);
     kani::cover!(ok == ACC, "cookie decoded (real decode_cookie), field decrypted");
     kani::cover!(ok == DEC, "cookie or field refused");
